@@ -1379,3 +1379,77 @@ Proof.
   - intros a k. exact (repeated_coefficient_payload_check_forge g0 g1 chi_of bl b0 b1 seed pos delta Hd tr res pos' Hrun j0 a k Hj Hdj).
   - intros a b. exact (repeated_coefficient_payload_forge g0 g1 chi_of bl b0 b1 seed pos delta Hd tr res pos' Hrun j0 a b Hj Hdj).
 Qed.
+
+(* ======================================================================== *)
+(* Part 8: alterations of the challenge response alone                       *)
+(* ======================================================================== *)
+
+Section ResponseAlteration.
+  Variables g0 g1 : nat -> nat -> N.
+  Variable chi_of : N -> nat -> N.
+  Variable bl : list bool.
+  Variables b0 b1 seed : N.
+  Variable pos : nat.
+  Variable delta : N.
+  Hypothesis Hdelta : (delta < 2^128)%N.
+  Variables (tr : transcript) (res : list N) (pos' : nat).
+  Hypothesis Hrun : receiver_run g0 g1 chi_of bl b0 b1 seed pos = (tr, res, pos').
+
+  Let n := length bl.
+  Let S_ := sender_run (sender_streams g0 g1 delta) delta chi_of.
+
+  (* matrix, seed and x untouched, the 256-bit tag (t0, t1) replaced by ANY
+     other pair of naturals: rejected.  The comparison is a full equality of
+     both 128-bit halves. *)
+  Theorem tag_alteration_rejected : forall t0h t1h,
+    (t0h, t1h) <> (tr_t0 tr, tr_t1 tr) ->
+    S_ (tamper noerr noerr (tr_seed tr) (tr_x tr) t0h t1h tr) n pos = Reject.
+  Proof.
+    intros t0h t1h Hne. unfold S_, n.
+    rewrite (sender_run_spec g0 g1 chi_of bl b0 b1 pos delta Hdelta _ _ _ _ noerr noerr
+               (tr_seed tr) (tr_x tr) t0h t1h Hrun).
+    destruct (sender_check _ _ _ _ (tr_x tr) t0h t1h) eqn:Hc; [exfalso | reflexivity].
+    destruct (honest_accepts g0 g1 chi_of bl b0 b1 seed pos delta Hdelta tr res pos' Hrun) as [out [Ha _]].
+    rewrite <- (tamper_noerr tr) in Ha at 1. unfold tamper_bits in Ha.
+    rewrite (sender_run_spec g0 g1 chi_of bl b0 b1 pos delta Hdelta _ _ _ _ noerr noerr
+               (tr_seed tr) (tr_x tr) (tr_t0 tr) (tr_t1 tr) Hrun) in Ha.
+    destruct (sender_check _ _ _ _ (tr_x tr) (tr_t0 tr) (tr_t1 tr)) eqn:Hh; [|discriminate].
+    apply sender_check_rows in Hc. apply sender_check_rows in Hh.
+    apply Hne. rewrite <- Hc, <- Hh. reflexivity.
+  Qed.
+
+  Lemma lxor_mask_neq : forall a m, m <> 0%N -> N.lxor a m <> a.
+  Proof.
+    intros a m Hm H. apply Hm. apply (f_equal (N.lxor a)) in H.
+    rewrite <- N.lxor_assoc, N.lxor_nilpotent, N.lxor_0_l in H. exact H.
+  Qed.
+
+  (* xor-masks on the tag halves; in particular the "mirrored" masks (the same
+     64-bit pattern in both 64-bit halves of a label, e.g. bit k and bit k+64) *)
+  Corollary tag_mask_rejected : forall m0 m1,
+    (m0 <> 0%N \/ m1 <> 0%N) ->
+    S_ (tamper noerr noerr (tr_seed tr) (tr_x tr) (N.lxor (tr_t0 tr) m0) (N.lxor (tr_t1 tr) m1) tr) n pos = Reject.
+  Proof.
+    intros m0 m1 Hm. apply tag_alteration_rejected. intros H. injection H as H0 H1.
+    destruct Hm as [Hm|Hm]; [exact (lxor_mask_neq _ _ Hm H0) | exact (lxor_mask_neq _ _ Hm H1)].
+  Qed.
+
+  Definition mirrored (m : N) : N := (m + 2^64 * m)%N.
+
+  Corollary mirrored_tag_alteration_rejected : forall k,
+    (k < 64)%N ->
+    S_ (tamper noerr noerr (tr_seed tr) (tr_x tr) (N.lxor (tr_t0 tr) (mirrored (2^k))) (tr_t1 tr) tr) n pos = Reject /\
+    S_ (tamper noerr noerr (tr_seed tr) (tr_x tr) (tr_t0 tr) (N.lxor (tr_t1 tr) (mirrored (2^k))) tr) n pos = Reject.
+  Proof.
+    intros k Hk.
+    assert (Hm : mirrored (2^k) <> 0%N).
+    { unfold mirrored. pose proof (N.pow_nonzero 2 k ltac:(discriminate)). lia. }
+    split.
+    - rewrite <- (N.lxor_0_r (tr_t1 tr)) at 1. apply tag_mask_rejected. left. exact Hm.
+    - rewrite <- (N.lxor_0_r (tr_t0 tr)) at 1. apply tag_mask_rejected. right. exact Hm.
+  Qed.
+End ResponseAlteration.
+
+(* a concrete mirrored mask: bit 3 together with bit 67 *)
+Example mirrored_mask_example : mirrored (2^3) = (2^3 + 2^67)%N /\ mirrored (2^3) <> 0%N.
+Proof. split; [reflexivity | discriminate]. Qed.
